@@ -3,4 +3,4 @@ Require Extraction.
 Require Import ExtrOcamlBasic.
 Extraction Language OCaml.
 Set Extraction Output Directory ".".
-Extraction "model.ml" run_case run_diag run_faithful run_mcs.
+Extraction "model.ml" run_case run_diag run_faithful run_mcs run_cinf.
